@@ -175,6 +175,11 @@ def run(
     out = p.stdout + ("\n" + p.stderr if p.stderr else "")
     res = TLCResult(stdout=out, workdir=wd, wall_s=time.time() - t0)
     (wd / "tlc.out").write_text(out)
+    ms = re.search(r"The number of states generated: (\d+)", out)
+    if ms and simulate:          # simulation mode reports only the states generated along the sampled behaviours
+        res.generated = int(ms.group(1))
+        res.distinct = int(ms.group(1))
+        res.depth = depth or 0
     for m in _RE_STATES.finditer(out):
         res.generated, res.distinct = int(m.group(1)), int(m.group(2))
     m = _RE_DEPTH.search(out)
